@@ -95,6 +95,10 @@ func rapidCases[C any](h *H, sub string, n int, gen func(rt *rapid.T) C, run fun
 						f = &fail{Sig: "harness-panic", Msg: fmt.Sprintf("HARNESS-ERROR panic in case: %v\n%s", r, debug.Stack())}
 					}
 				}()
+				// if the process dies inside the case (a panic on a goroutine the
+				// library started or was called on), the driver reports this case
+				h.Danger(sub, "process-died:"+sub, "the test process died while this case was running", c)
+				defer h.Safe()
 				f = run(c)
 			}()
 			if f != nil && f.Sig != "harness-panic" && h.Known(f.Sig) {
